@@ -178,7 +178,9 @@ func (ft *fnTrans) run() {
 	ft.top0 = vc.get(ft.entry, compTop)
 	// ghost event components exist from the start so that heap-wide havocs can preserve them
 	for _, name := range sortedKeys(vc.P.cs.Events) {
-		vc.evComps(name)
+		if vc.P.typesPkg(vc.P.cs.Events[name].Pkg) != nil {
+			vc.evComps(name)
+		}
 	}
 	// parameters
 	for _, p := range fn.Params {
